@@ -175,6 +175,7 @@ Theorem workers_idle_at_commit_refuted :
     m_stg Z m' 2 = OSS.
 Proof.
   exists 4, Witness.w_sched. destruct Witness.busy_witness as (m' & Hm & Hs & _).
+  unfold Witness.w_mp in Hm.
   exists m'. split; [vm_compute; reflexivity|]. split; [exact Hm | exact Hs].
 Qed.
 Print Assumptions workers_idle_at_commit_refuted.
@@ -194,6 +195,6 @@ Theorem tie_sensitivity_refuted :
 Proof.
   exists 2, Witness.w_has_args, Witness.w_to_run, Witness.t_ev_time, Witness.w_out_state, Witness.w_trash_of, 1,
          [[[0]; [1]; [2]; [3]]], [[[1]; [0]; [2]; [3]]].
-  exact Witness.tie_witness.
+  pose proof Witness.tie_witness as Hw. unfold Witness.t_mp, Witness.t_sp in Hw. exact Hw.
 Qed.
 Print Assumptions tie_sensitivity_refuted.
